@@ -1,0 +1,13 @@
+//go:build verif
+
+// Contracts for package compaction, read by /verif/kvc (contract-based deductive verification).
+// Comment-only; excluded from every build without the `verif` tag.
+package compaction
+
+// ---- C07: sharing discipline (every access to these fields, anywhere in the program, must hold the mutex)
+//@ guarded (*TombstoneTracker).deletions by mu
+//@ guarded (*TombstoneTracker).preserveForever by mu
+//@ guarded (*DefaultFileTracker).obsoleteFiles by filesMu
+//@ guarded (*DefaultFileTracker).pendingFiles by filesMu
+//@ guarded (*DefaultCompactionCoordinator).running by compactingMu
+//@ guarded (*DefaultCompactionCoordinator).lastCompactionOutputs by resultsMu
